@@ -229,9 +229,13 @@ def seeded_matrix(allids):
     os.makedirs(os.path.dirname(resfile), exist_ok=True)
     out = {}
     sdir = os.path.join(ROOT, "seeded")
+    ids_filter = set(sys.argv[sys.argv.index("--ids") + 1].split(",")) if "--ids" in sys.argv else None
+    own = "--own" in sys.argv
+    if ids_filter:
+        resfile = os.path.join(ROOT, "selftest", "seeded_partial.json")
     for sid in sorted(os.listdir(sdir)):
         patch = os.path.join(sdir, sid, "patch.diff")
-        if not os.path.exists(patch):
+        if not os.path.exists(patch) or (ids_filter and sid not in ids_filter):
             continue
         sh("git checkout -- .", cwd=REPO)
         r = sh(f"git apply {patch}", cwd=REPO)
@@ -244,7 +248,7 @@ def seeded_matrix(allids):
                 out[sid] = {"status": "does-not-compile"}
                 continue
             res = {"status": "ran", "caught_by": {}, "missed_by": [], "inconclusive": []}
-            for pid in allids:
+            for pid in ([sid.split("-")[0]] if own else allids):
                 code, sigs, so = run_check(pid)
                 if code == 1:
                     res["caught_by"][pid] = sigs[:3]
